@@ -256,6 +256,117 @@ Definition v1_get (st : state) (p : perms) (path : list Z) (view : Z) : reply :=
       end
     end.
 
+(* ---------- subscriptions through the handlers ----------
+   The handlers select ids and fields and then call the core `subscribe`; what the subscriber is sent
+   afterwards is the core subscription's stream (the proto conversion keeps ids / paths, fields and
+   datapoints). *)
+Definition sub_status (e : sub_error) : Z :=
+  match e with
+  | SNotFound => NOT_FOUND
+  | SInvalidInput | SInvalidBufferSize => INVALID_ARGUMENT
+  | SInternal => 13
+  end.
+
+Definition nth_id_entries (db : database) (idx : list Z) : list (Z * entry) :=
+  flat_map (fun i => match nth_error (entries db) (Z.to_nat i) with Some ie => [ie] | None => [] end) idx.
+
+Definition core_subscribe (st : state) (p : perms) (es : list (Z * fields)) (buf : option Z) : state * (Z + Z) :=
+  match subscribe st p es buf with
+  | (st', inl h) => (st', inl h)
+  | (st', inr e) => (st', inr (sub_status e))
+  end.
+
+(* kuksa.val.v1 Subscribe with one SubscribeEntry: an over-long or invalid path is skipped (leaving nothing
+   to subscribe to); otherwise the pattern selects as in Get (branch fallback included), every selected
+   signal must be readable, and the entry's fields (Value / ActuatorTarget / MetadataUnit; others are
+   ignored) are subscribed for each *)
+Definition v1_sub_entries (st : state) (p : perms) (path : list Z) (fl : fields) : list (Z * fields) + Z :=
+  if too_long path || negb (matcher_accepts path) then inl []
+  else
+    match to_glob path with
+    | None => inr (-9)
+    | Some ps =>
+      match nth_id_entries (st_db st) (with_fallback ps (tree_of (st_db st))) with
+      | [] => inr NOT_FOUND
+      | sel =>
+        if existsb (fun ie => match can_read p (st_now st) (path_segs (e_meta (snd ie))) with
+                              | POk => false | _ => true end) sel
+        then inr PERMISSION_DENIED
+        else inl (map (fun ie => (fst ie, fl)) sel)
+      end
+    end.
+Definition v1_subscribe (st : state) (p : perms) (path : list Z) (fl : fields) : state * (Z + Z) :=
+  match v1_sub_entries st p path fl with
+  | inr code => (st, inr code)
+  | inl es => core_subscribe st p es None
+  end.
+
+(* kuksa.val.v2 Subscribe / SubscribeById: every signal is resolved first (the first failure is the
+   answer); duplicates collapse; the Datapoint field of each is subscribed with the given buffer size *)
+Fixpoint v2_resolve_all (db : database) (l : list sig_ref) : list Z + Z :=
+  match l with
+  | [] => inl []
+  | s :: r => match v2_get_signal db s with
+              | inr code => inr code
+              | inl id => match v2_resolve_all db r with
+                          | inl ids => inl (id :: ids)
+                          | inr code => inr code
+                          end
+              end
+  end.
+
+Fixpoint nodup_z (l : list Z) : list Z :=
+  match l with
+  | [] => []
+  | x :: r => if existsb (Z.eqb x) r then nodup_z r else x :: nodup_z r
+  end.
+
+Definition dp_only : fields := {| f_dp := true; f_target := false; f_unit := false |}.
+
+Definition v2_sub_entries (db : database) (l : list sig_ref) : list (Z * fields) + Z :=
+  match v2_resolve_all db l with
+  | inr code => inr code
+  | inl ids => inl (map (fun id => (id, dp_only)) (nodup_z ids))
+  end.
+Definition v2_subscribe (st : state) (p : perms) (l : list sig_ref) (buf : Z) : state * (Z + Z) :=
+  match v2_sub_entries (st_db st) l with
+  | inr code => (st, inr code)
+  | inl es => core_subscribe st p es (Some buf)
+  end.
+
+(* ---------- kuksa.val.v2 OpenProviderStream ----------
+   ProvideActuationRequest: path identifiers are resolved first (any unknown path: NOT_FOUND), numeric ids
+   are taken as they are (the core checks them), identifiers of neither form are ignored; the claim is the
+   core provide_actuation of the ids followed by the resolved paths.  PublishValuesRequest: the core
+   update_entries of the datapoints; the answer lists the failed ids with the in-stream error code. *)
+Definition sig_paths (l : list sig_ref) : list (list Z) :=
+  flat_map (fun s => match s with SigPath x => [x] | _ => [] end) l.
+Definition sig_ids (l : list sig_ref) : list Z :=
+  flat_map (fun s => match s with SigId i => [i] | _ => [] end) l.
+Fixpoint resolve_paths (db : database) (l : list (list Z)) : option (list Z) :=
+  match l with
+  | [] => Some []
+  | x :: r => match lookup_path (path_to_id db) x, resolve_paths db r with
+              | Some id, Some ids => Some (id :: ids)
+              | _, _ => None
+              end
+  end.
+Definition v2_provide_ids (db : database) (l : list sig_ref) : option (list Z) :=
+  option_map (fun r => sig_ids l ++ r) (resolve_paths db (sig_paths l)).
+Definition v2_provide (st : state) (p : perms) (l : list sig_ref) : state * (Z + Z) :=
+  match v2_provide_ids (st_db st) l with
+  | None => (st, inr NOT_FOUND)
+  | Some ids => match provide_actuation st p ids with
+                | (st', inl h) => (st', inl h)
+                | (st', inr e) => (st', inr (act_status e))
+                end
+  end.
+Definition stream_updates (l : list (Z * option value)) : list (Z * upd) :=
+  map (fun '(id, w) => (id, dp_upd (from_wire w))) l.
+Definition v2_stream_publish (st : state) (p : perms) (l : list (Z * option value)) : state * list (Z * Z) :=
+  let '(st', errs) := update_entries st p (stream_updates l) in
+  (st', map (fun '(id, e) => (id, v2_error_code e)) errs).
+
 (* Set: each update names a path, a field mask (1 Value, 2 ActuatorTarget) and the entry's
    value / actuator_target *)
 Record v1_update := { v1_path : option (list Z);            (* None: `entry` absent *)
